@@ -59,10 +59,11 @@ class ObjSpec:
 
 
 class Env:
-    def __init__(self, objects, owner=None, owner_free=()):
+    def __init__(self, objects, owner=None, owner_free=(), value_only=()):
         self.objects = objects          # readable source objects
         self.owner = owner              # ObjSpec of the binding's object (this) or None
         self.owner_free = owner_free    # property names of the owner that may be read (never binding targets)
+        self.value_only = list(value_only)   # [(object id, property, type)] readable value properties of bound objects
 
 
 # ---------------------------------------------------------------------------------------------
@@ -81,6 +82,9 @@ class Gen:
         self.inf_constant_hazard = False
         self.annotate_stringlist = False
         self.no_methods = False
+        self.chain_bias = 0.0    # raises the share of pointer chains / conditional objects among object expressions
+        self.chain_extra = 0
+        self.no_state_methods = False   # methods whose result depends on object state (not observable by bindings)
         self.void_path_hazard = False
         self.has_void_path = False
 
@@ -165,7 +169,7 @@ class Gen:
         if loc and r < 0.25:
             self.feat("obj-via-local")
             return N("local", PTR, v=rng.choice(loc))
-        if self.profile == "constant" or not allow_chain or depth >= self.max_depth or r < 0.55 or not vfs:
+        if self.profile == "constant" or not allow_chain or depth >= self.max_depth + self.chain_extra or r < 0.55 - self.chain_bias or not vfs:
             if not vfs:
                 raise ValueError("no VfWidget object in the environment")
             return N("obj", PTR, v=rng.choice(vfs).id, const=True)
@@ -176,7 +180,7 @@ class Gen:
         if r < 0.95:
             self.feat("ptr-ternary")
             return N("tern", PTR, (self.expr(BOOL, depth + 1), self.obj_expr(depth + 1, False), self.obj_expr(depth + 1, False)))
-        if self.no_methods:
+        if self.no_methods or self.no_state_methods:
             return N("obj", PTR, v=rng.choice(vfs).id, const=True)
         self.feat("ptr-method")
         return N("call", PTR, (self.obj_expr(depth + 1, False),), v="other")
@@ -194,9 +198,16 @@ class Gen:
             cands.append("qt")
         if self.env.owner is not None and any(pt == t for (_, pt) in self.env.owner_free):
             cands.append("this")
+        vo = [(o, p) for (o, p, pt) in self.env.value_only if pt == t]
+        if vo:
+            cands += ["cascade", "cascade"]
         if not cands:
             return None
         w = rng.choice(cands)
+        if w == "cascade":
+            o, p = rng.choice(vo)
+            self.feat("read-bound-property")
+            return N("prop", t, (N("obj", PTR, v=o, const=True),), v=p)
         if w == "qt":
             o, p = rng.choice(qt)
             self.feat("read-qt")
